@@ -387,9 +387,6 @@ def queue_rows(mods):
 
 
 def extract(repo):
-    # C14's composition theorems use the C13 limiter model and its facts
-    from . import c20
-    c20._refresh_c13_facts(repo)
     mods = _mods(repo)
     session, jsonrpc = mods['session'], mods['jsonrpc']
     SB = session.SessionBase
